@@ -106,3 +106,25 @@ pub proof fn rotval_is_val(r: Seq<u64>, n: nat, i: nat, t: nat)
     if t > 0 { rotval_is_val(r, n, i, (t - 1) as nat); }
 }
 
+
+// ---- opaque limb products: straight-line (unrolled) bodies keep `prod(x, y)` as an atom, lemmas open it locally
+#[verifier::opaque]
+pub open spec fn prod(x: nat, y: nat) -> nat { x * y }
+pub proof fn lemma_prod(x: nat, y: nat) ensures prod(x, y) == x * y { reveal(prod); }
+
+/// one multiply-accumulate step of an unrolled 2N-limb accumulator, as a context-free lemma:
+/// position k = i + j receives x * y + carry; `base` is a part of the value that the row does not touch (0, or the low limbs)
+pub proof fn lemma_acc_step(cprev: Seq<u64>, cnew: Seq<u64>, k: nat, n2: nat, cc: int, c1: int, x: nat, y: nat, rhs0: int, vyj: int, i: nat, j: nat, base: int)
+    requires k < n2, n2 <= cprev.len(), cnew =~= cprev.update(k as int, cnew[k as int]), k == i + j,
+        cnew[k as int] as int + c1 * (B() as int) == cprev[k as int] as int + prod(x, y) as int + cc,
+        (val(cprev, n2) as int - base) + cc * (bpow(k) as int) == rhs0 + (x as int) * vyj * (bpow(i) as int),
+    ensures (val(cnew, n2) as int - base) + c1 * (bpow(k + 1) as int) == rhs0 + (x as int) * (vyj + (y as int) * (bpow(j) as int)) * (bpow(i) as int)
+{
+    lemma_prod(x, y);
+    let nw = cnew[k as int];
+    val_update(cprev, k, nw, n2);
+    bpow_add(i, j);
+    assert(bpow(k + 1) == B() * bpow(k));
+    lemma_row_step(val(cprev, n2) as int - base, cc, bpow(k) as int, cprev[k as int] as int, x as int, y as int, nw as int, c1,
+        rhs0, vyj, bpow(i) as int, bpow(j) as int);
+}
